@@ -802,7 +802,7 @@ func init() {
 						dt = dt[4:]
 					}
 					dblocks = append(dblocks, wpBlock{kind: 1, level: lvl, via: via, useRaw: true, rawDocx: tokXML(dt, false)})
-					oblocks = append(oblocks, wpBlock{kind: 1, level: lvl, useRaw: true, rawOdt: tokXML(ot, true)})
+					oblocks = append(oblocks, wpBlock{kind: 1, level: lvl, via: via, useRaw: true, rawOdt: tokXML(ot, true)})
 					dv = append(dv, L(I(1), I(lvl), tokV(dt)))
 					ov = append(ov, L(I(1), I(lvl), tokV(ot)))
 					exps = append(exps, exp{kind: 1, level: lvl, text: [2]string{dw, ow}})
